@@ -94,6 +94,36 @@ def asm_one(item):
         signal.signal(signal.SIGALRM, old)
 
 
+def asm_after(item):
+    """item = [(syntax, text) ..., (syntax, text)]: in a forked child of this worker (process state = the state right after
+    import, whatever the worker did before) the lines are assembled in order; returns the outcome of the LAST one"""
+    if _mn is None:
+        _init()
+    r, w = os.pipe()
+    pid = os.fork()
+    if pid == 0:
+        try:
+            os.close(r)
+            out = None
+            for it in item:
+                out = asm_one(tuple(it))
+            os.write(w, json.dumps(out).encode())
+        finally:
+            os._exit(0)
+    os.close(w)
+    data = b''
+    while True:
+        part = os.read(r, 65536)
+        if not part:
+            break
+        data += part
+    os.close(r)
+    os.waitpid(pid, 0)
+    if not data:
+        return {'st': 'internal', 'c': [], 'exc': {'exc': 'ChildDied', 'func': 'asm_after', 'line': ''}}
+    return json.loads(data)
+
+
 def pmap(fn, items, chunk=500):
     """always in forked workers: importing miasmX with an empty PLY table directory leaves sys.path = [tempdir]
     (ply/yacc.py read_table), which must not happen to the harness process"""
